@@ -130,9 +130,16 @@ def run_verus(gen, log_dir=None, rlimit=30, extra=(), seed=None, timeout=900):
 def count_air_asserts(log_dir, crate):
     """obligations = number of (assert …) nodes inside `;; Function-Def <crate>::…` check-valid queries"""
     per_fn = {}
-    p = os.path.join(log_dir, "root.air")
-    if not os.path.exists(p):
+    if not os.path.isdir(log_dir):
         return per_fn
+    # one .air file per module of the assembled file (root.air plus one per nested `mod`)
+    for name in sorted(os.listdir(log_dir)):
+        if name.endswith(".air"):
+            _count_air_file(os.path.join(log_dir, name), crate, per_fn)
+    return per_fn
+
+
+def _count_air_file(p, crate, per_fn):
     cur = None
     with open(p, errors="replace") as f:
         for line in f:
